@@ -70,13 +70,10 @@ class RecOps:
         self.closed += 1
 
 
-def mk_backend(state_dir, bstates, prefix="n"):
-    """Real TrackingBackend over RecOps. bstates: name -> state word. A target with a backend state other
-    than 'unknown' gets a tracked id 'o<k>' whose scheduler state is that word; 'unknown' targets are
-    alternately untracked or tracked with an id the scheduler no longer knows.
-    The tracked file is really written and read by TrackingBackend's own loader."""
-    import json
-
+def tracked_for(bstates):
+    """bstates: name -> state word. A target with a backend state other than 'unknown' gets a tracked id
+    'o<k>' whose scheduler state is that word; 'unknown' targets are alternately untracked or tracked with
+    an id the scheduler no longer knows."""
     tracked, states = {}, {}
     for k, (name, st) in enumerate(sorted(bstates.items())):
         if st == "unknown":
@@ -85,16 +82,44 @@ def mk_backend(state_dir, bstates, prefix="n"):
             continue
         tracked[name] = f"o{k}"
         states[f"o{k}"] = BS[st]
+    return tracked, states
+
+
+def write_tracked(state_dir, tracked, name="rec"):
+    import json
+
     os.makedirs(os.path.join(state_dir, ".gwf"), exist_ok=True)
-    path = os.path.join(state_dir, ".gwf", "rec-backend-tracked.json")
+    path = os.path.join(state_dir, ".gwf", f"{name}-backend-tracked.json")
     if tracked:
         with open(path, "w") as f:
             json.dump(tracked, f)
     elif os.path.exists(path):
         os.remove(path)
+    return path
+
+
+def open_backend(state_dir, states, prefix="n", name="rec"):
+    """Real TrackingBackend (reads the tracked file itself) over recording ops."""
     ops = RecOps(states, prefix=prefix)
-    be = TrackingBackend(working_dir=state_dir, name="rec", ops=ops)
+    return TrackingBackend(working_dir=state_dir, name=name, ops=ops), ops
+
+
+def mk_backend(state_dir, bstates, prefix="n"):
+    tracked, states = tracked_for(bstates)
+    write_tracked(state_dir, tracked)
+    be, ops = open_backend(state_dir, states, prefix)
     return be, ops, tracked
+
+
+def read_tracked(state_dir, name="rec"):
+    import json
+
+    path = os.path.join(state_dir, ".gwf", f"{name}-backend-tracked.json")
+    try:
+        with open(path) as f:
+            return json.load(f)
+    except FileNotFoundError:
+        return {}
 
 
 def mk_hashes(hstates, specs):
